@@ -142,11 +142,28 @@ class Seams:
         N = getattr(node_mod, "Node", None)
         if N is not None and "__hash__" not in N.__dict__ and "__eq__" not in N.__dict__:
 
+            import weakref
+
+            fixed = {}  # id(node) -> hash, for the lifetime of the node
+
             def sim_hash(self_):
-                try:
-                    return hash(self_.uuid.int)
-                except Exception:
-                    return id(self_) >> 4
+                # The value must never change while the object lives: copy.deepcopy and pickle
+                # put a half-restored node (no uuid yet) into its parent's set and restore its
+                # state afterwards. So the first answer is kept (by-address only for such
+                # half-built copies; their sets are iterated through the order seam anyway).
+                k = id(self_)
+                h = fixed.get(k)
+                if h is None:
+                    try:
+                        h = hash(self_.uuid.int)
+                    except Exception:
+                        h = k >> 4
+                    fixed[k] = h
+                    try:
+                        weakref.finalize(self_, fixed.pop, k, None)
+                    except TypeError:
+                        pass
+                return h
 
             N.__hash__ = sim_hash
             self.hash_available = True
